@@ -325,7 +325,7 @@ class Check:
         e = {"VERIF_OUT": path, "VERIF_WORK": self.wd}
         e.update(env or {})
         t = time.time()
-        rc, output = run_harness(self.harness(), test, env=e, timeout=timeout)
+        rc, output = run_harness(self.harness(), test, env=e, timeout=timeout, cwd=self.wd)
         log("[%s] harness %s rc=%s %.1fs" % (self.prop, test, rc, time.time() - t))
         self.last_output = output
         if rc is None:
@@ -363,9 +363,13 @@ class Check:
             found.append({"invariant": r.violated, "trace": bad, "line": cur_events[li - 1], "state": r.last_state, "label": label})
             if r.violated in ("Inv_WellFormed",):
                 raise Machinery("trace not parseable by %s at %s (state %s)" % (module, cur_events[li - 1], r.last_state))
-            # drop the offending trace and continue with the rest, so that the REST of the run is still checked
-            cur_events = [e for e in cur_events if e.get("t") != tid]
-            if not cur_events or rounds > 40:
+            # everything before the offending trace has been accepted (the recorder is deterministic, TLC explores it in
+            # trace order): continue behind it, so that the REST of the run is still checked
+            first_bad = next(i for i, e in enumerate(cur_events) if e.get("t") == tid)
+            accepted += len(split_traces(cur_events[:first_bad])) if first_bad > 0 else 0
+            last_bad = max(i for i, e in enumerate(cur_events) if e.get("t") == tid)
+            cur_events = cur_events[last_bad + 1:]
+            if not cur_events or rounds > 200:
                 break
             pending = os.path.join(self.wd, "rest_%d.ndjson" % rounds)
             with open(pending, "w") as fh:
